@@ -1,6 +1,7 @@
 """C08 - modules equal their functional form, honour every option, start unit-scaled, carry the right tags."""
 from __future__ import annotations
 
+import collections
 import math
 
 from vlib import env  # noqa: F401
@@ -559,7 +560,14 @@ def run_init(c) -> CaseResult:
             outside = uu.Linear(h, h, bias=True)
             if c["bias"] and len(mods) >= 1:
                 mods = mods + [mods[0]] * (c["k"] % 3)   # a weight-shared instance repeated: depth is still len(container)
-            m = uu.DepthSequential(*mods) if kind == "DepthSequential" else uu.DepthModuleList(mods)
+            # every documented way of handing the layers to the underlying torch container
+            spell = c["k"] % 4
+            if kind == "DepthSequential":
+                m = uu.DepthSequential(collections.OrderedDict((f"block{i_}", mm) for i_, mm in enumerate(mods))) if spell in (1, 3) else uu.DepthSequential(*mods)
+                res.labels.append("DepthSequential(" + ("OrderedDict" if spell in (1, 3) else "*layers") + ")")
+            else:
+                m = uu.DepthModuleList([mods, tuple(mods), (mm for mm in mods), iter(mods)][spell])
+                res.labels.append("DepthModuleList(" + ["list", "tuple", "generator", "iterator"][spell] + ")")
             if len(m) != len(mods):
                 raise AssertionError("harness: container length")
             expect_tags(res, m, [], len(mods), kind)
